@@ -30,7 +30,8 @@ CONSTANTS NThreads,       \* 2 or 3
           OpOf,           \* sequence: operation of each thread
           WaitKeepsGil,   \* BOOLEAN
           NObj,           \* objects visited by a flatten
-          NItems          \* leaves in the shared iterator
+          NItems,         \* leaves in the shared iterator
+          GuardKeyedByThread   \* BOOLEAN: the hash / repr re-entrancy guard is keyed by (treespec, thread) - the design - or by treespec only
 
 T == 1..NThreads
 
@@ -40,6 +41,7 @@ Prog(o) ==
     [] o = "reg_hook" -> <<"wlock", "insN", "cb", "insL", "wunlock">>
     [] o = "reg" -> <<"wlock", "insN", "insL", "wunlock">>
     [] o = "unreg" -> <<"wlock", "delN", "delL", "wunlock">>
+    [] o = "hash" -> <<"gins", "cb", "gdel">>          \* hash / repr of a shared treespec: re-entrancy guard around user __hash__ / __repr__
     [] o = "next" -> [i \in 1..(3 * NItems) |-> CASE i % 3 = 1 -> "pop" [] i % 3 = 2 -> "cb" [] OTHER -> "deliver"]
 
 VARIABLES pc,         \* pc[t]: index of the next segment of thread t
@@ -51,15 +53,19 @@ VARIABLES pc,         \* pc[t]: index of the next segment of thread t
           regN, regL, \* the registered flag of the one contended type in the two engine variants
           seen,       \* seen[t]: sequence of lookup results <<N, L>> observed by thread t
           agenda, hand, got,   \* shared iterator: remaining items; item in thread t's hands; delivered items per thread
+          guard,      \* re-entrancy guard set of hash / repr: keys <<treespec, thread>> (one shared treespec here)
+          reent,      \* reent[t]: thread t found "its" key already present (it would then return 0 / "..." instead of the value)
           sched       \* history: which thread moved (the schedule replayed on the real code)
-tvars == <<pc, gil, writer, readers, waiting, incb, regN, regL, seen, agenda, hand, got, sched>>
+tvars == <<pc, gil, writer, readers, waiting, incb, regN, regL, seen, agenda, hand, got, guard, reent, sched>>
 
 Init == /\ pc = [t \in T |-> 1] /\ gil = 0 /\ writer = 0 /\ readers = {}
         /\ waiting = [t \in T |-> FALSE] /\ incb = [t \in T |-> FALSE]
         /\ regN = FALSE /\ regL = FALSE /\ seen = [t \in T |-> <<>>]
         /\ agenda = [i \in 1..NItems |-> i] /\ hand = [t \in T |-> 0] /\ got = [t \in T |-> <<>>]
+        /\ guard = {} /\ reent = [t \in T |-> FALSE]
         /\ sched = <<>>
 
+GuardKey(t) == IF GuardKeyedByThread THEN t ELSE 0
 Done(t) == pc[t] > Len(Prog(OpOf[t]))
 Seg(t) == Prog(OpOf[t])[pc[t]]
 Log(t, a) == sched' = Append(sched, <<t, a>>)
@@ -68,7 +74,7 @@ Log(t, a) == sched' = Append(sched, <<t, a>>)
 TakeGil(t) == /\ gil = 0 /\ ~Done(t) /\ ~waiting[t]
               /\ gil' = t /\ incb' = [incb EXCEPT ![t] = FALSE]
               /\ Log(t, "gil")
-              /\ UNCHANGED <<pc, writer, readers, waiting, regN, regL, seen, agenda, hand, got>>
+              /\ UNCHANGED <<pc, writer, readers, waiting, regN, regL, seen, agenda, hand, got, guard, reent>>
 
 CanW(t) == writer = 0 /\ readers = {}
 CanR(t) == writer = 0
@@ -78,42 +84,47 @@ Step(t) ==
   /\ LET s == Seg(t) IN
      CASE s = "wlock" ->
             IF CanW(t) THEN /\ writer' = t /\ waiting' = [waiting EXCEPT ![t] = FALSE] /\ pc' = [pc EXCEPT ![t] = @ + 1]
-                            /\ UNCHANGED <<gil, readers, regN, regL, seen, agenda, hand, got, incb>>
+                            /\ UNCHANGED <<gil, readers, regN, regL, seen, agenda, hand, got, incb, guard, reent>>
             ELSE /\ ~waiting[t] /\ waiting' = [waiting EXCEPT ![t] = TRUE]
                  /\ gil' = IF WaitKeepsGil THEN gil ELSE 0          \* blocked inside the C++ mutex
-                 /\ UNCHANGED <<pc, writer, readers, regN, regL, seen, agenda, hand, got, incb>>
+                 /\ UNCHANGED <<pc, writer, readers, regN, regL, seen, agenda, hand, got, incb, guard, reent>>
        [] s = "rlock" ->
             IF CanR(t) THEN /\ readers' = readers \cup {t} /\ waiting' = [waiting EXCEPT ![t] = FALSE] /\ pc' = [pc EXCEPT ![t] = @ + 1]
-                            /\ UNCHANGED <<gil, writer, regN, regL, seen, agenda, hand, got, incb>>
+                            /\ UNCHANGED <<gil, writer, regN, regL, seen, agenda, hand, got, incb, guard, reent>>
             ELSE /\ ~waiting[t] /\ waiting' = [waiting EXCEPT ![t] = TRUE]
                  /\ gil' = IF WaitKeepsGil THEN gil ELSE 0
-                 /\ UNCHANGED <<pc, writer, readers, regN, regL, seen, agenda, hand, got, incb>>
+                 /\ UNCHANGED <<pc, writer, readers, regN, regL, seen, agenda, hand, got, incb, guard, reent>>
        [] s = "wunlock" -> /\ writer' = 0 /\ pc' = [pc EXCEPT ![t] = @ + 1]
-                           /\ UNCHANGED <<gil, readers, waiting, regN, regL, seen, agenda, hand, got, incb>>
+                           /\ UNCHANGED <<gil, readers, waiting, regN, regL, seen, agenda, hand, got, incb, guard, reent>>
        [] s = "runlock" -> /\ readers' = readers \ {t} /\ pc' = [pc EXCEPT ![t] = @ + 1]
-                           /\ UNCHANGED <<gil, writer, waiting, regN, regL, seen, agenda, hand, got, incb>>
+                           /\ UNCHANGED <<gil, writer, waiting, regN, regL, seen, agenda, hand, got, incb, guard, reent>>
        [] s = "insN" -> /\ regN' = TRUE /\ pc' = [pc EXCEPT ![t] = @ + 1]
-                        /\ UNCHANGED <<gil, writer, readers, waiting, regL, seen, agenda, hand, got, incb>>
+                        /\ UNCHANGED <<gil, writer, readers, waiting, regL, seen, agenda, hand, got, incb, guard, reent>>
        [] s = "insL" -> /\ regL' = TRUE /\ pc' = [pc EXCEPT ![t] = @ + 1]
-                        /\ UNCHANGED <<gil, writer, readers, waiting, regN, seen, agenda, hand, got, incb>>
+                        /\ UNCHANGED <<gil, writer, readers, waiting, regN, seen, agenda, hand, got, incb, guard, reent>>
        [] s = "delN" -> /\ regN' = FALSE /\ pc' = [pc EXCEPT ![t] = @ + 1]
-                        /\ UNCHANGED <<gil, writer, readers, waiting, regL, seen, agenda, hand, got, incb>>
+                        /\ UNCHANGED <<gil, writer, readers, waiting, regL, seen, agenda, hand, got, incb, guard, reent>>
        [] s = "delL" -> /\ regL' = FALSE /\ pc' = [pc EXCEPT ![t] = @ + 1]
-                        /\ UNCHANGED <<gil, writer, readers, waiting, regN, seen, agenda, hand, got, incb>>
+                        /\ UNCHANGED <<gil, writer, readers, waiting, regN, seen, agenda, hand, got, incb, guard, reent>>
        [] s = "lookup" -> /\ seen' = [seen EXCEPT ![t] = Append(@, <<regN, regL>>)] /\ pc' = [pc EXCEPT ![t] = @ + 1]
-                          /\ UNCHANGED <<gil, writer, readers, waiting, regN, regL, agenda, hand, got, incb>>
+                          /\ UNCHANGED <<gil, writer, readers, waiting, regN, regL, agenda, hand, got, incb, guard, reent>>
        [] s = "pop" -> /\ IF agenda = <<>> THEN hand' = [hand EXCEPT ![t] = 0] /\ UNCHANGED agenda
                           ELSE hand' = [hand EXCEPT ![t] = Head(agenda)] /\ agenda' = Tail(agenda)
                        /\ pc' = [pc EXCEPT ![t] = @ + 1]
-                       /\ UNCHANGED <<gil, writer, readers, waiting, regN, regL, seen, got, incb>>
+                       /\ UNCHANGED <<gil, writer, readers, waiting, regN, regL, seen, got, incb, guard, reent>>
        [] s = "deliver" -> /\ got' = [got EXCEPT ![t] = IF hand[t] = 0 THEN @ ELSE Append(@, hand[t])]
                            /\ hand' = [hand EXCEPT ![t] = 0] /\ pc' = [pc EXCEPT ![t] = @ + 1]
-                           /\ UNCHANGED <<gil, writer, readers, waiting, regN, regL, seen, agenda, incb>>
+                           /\ UNCHANGED <<gil, writer, readers, waiting, regN, regL, seen, agenda, incb, guard, reent>>
+       [] s = "gins" -> /\ reent' = [reent EXCEPT ![t] = GuardKey(t) \in guard] /\ guard' = guard \cup {GuardKey(t)}
+                        /\ pc' = [pc EXCEPT ![t] = @ + 1]
+                        /\ UNCHANGED <<gil, writer, readers, waiting, regN, regL, seen, agenda, hand, got, incb>>
+       [] s = "gdel" -> /\ guard' = guard \ {GuardKey(t)} /\ pc' = [pc EXCEPT ![t] = @ + 1]
+                        /\ UNCHANGED <<gil, writer, readers, waiting, regN, regL, seen, agenda, hand, got, incb, reent>>
        [] s = "cb" -> \* a Python callback: either it runs through, or the interpreter switches threads inside it
             \/ /\ pc' = [pc EXCEPT ![t] = @ + 1]
-               /\ UNCHANGED <<gil, writer, readers, waiting, regN, regL, seen, agenda, hand, got, incb>>
+               /\ UNCHANGED <<gil, writer, readers, waiting, regN, regL, seen, agenda, hand, got, incb, guard, reent>>
             \/ /\ incb' = [incb EXCEPT ![t] = TRUE] /\ gil' = 0 /\ pc' = [pc EXCEPT ![t] = @ + 1]
-               /\ UNCHANGED <<writer, readers, waiting, regN, regL, seen, agenda, hand, got>>
+               /\ UNCHANGED <<writer, readers, waiting, regN, regL, seen, agenda, hand, got, guard, reent>>
   /\ Log(t, Seg(t))
 \* a thread blocked in the C++ mutex gets it as soon as it is free - with or without the GIL, depending on the design
 LockGranted(t) ==
@@ -122,10 +133,10 @@ LockGranted(t) ==
      \/ Seg(t) = "rlock" /\ CanR(t) /\ readers' = readers \cup {t} /\ UNCHANGED writer
   /\ waiting' = [waiting EXCEPT ![t] = FALSE] /\ pc' = [pc EXCEPT ![t] = @ + 1]
   /\ Log(t, "granted")
-  /\ UNCHANGED <<gil, incb, regN, regL, seen, agenda, hand, got>>
+  /\ UNCHANGED <<gil, incb, regN, regL, seen, agenda, hand, got, guard, reent>>
 \* a finished thread gives the GIL back
 Finish(t) == /\ gil = t /\ Done(t) /\ gil' = 0 /\ Log(t, "end")
-             /\ UNCHANGED <<pc, writer, readers, waiting, incb, regN, regL, seen, agenda, hand, got>>
+             /\ UNCHANGED <<pc, writer, readers, waiting, incb, regN, regL, seen, agenda, hand, got, guard, reent>>
 
 Next == \E t \in T : TakeGil(t) \/ Step(t) \/ LockGranted(t) \/ Finish(t)
 Spec == Init /\ [][Next]_tvars
@@ -145,4 +156,6 @@ ExactlyOnce == LET g == FlatGot(T) IN
                /\ (AllDone /\ \A t \in T : OpOf[t] = "next") => {g[i] : i \in DOMAIN g} = 1..NItems
 \* concurrent registrations of one (type, namespace): the lock serialises them, so exactly one finds the slot free
 MutualExclusion == (writer # 0 => readers = {})
+\* hash / repr of a treespec shared by several threads: nobody mistakes another thread's call for its own recursion
+GuardPrivate == \A t \in T : ~reent[t]
 =============================================================================
